@@ -38,6 +38,9 @@ pub fn c12_case(text: &[u8], out: &mut Vec<Violation>) -> u64 {
 			}
 		}};
 	}
+	if let Some(first) = m.segs.first() {
+		q!("first.looks_like_scheme", p.first().map(|s| s.looks_like_scheme()), Some(model_looks_like_scheme(first)));
+	}
 	q!("is_absolute", p.is_absolute(), m.abs);
 	q!("is_relative", p.is_relative(), !m.abs);
 	q!("is_empty", p.is_empty(), k == 0);
@@ -243,10 +246,57 @@ pub fn c12_case(text: &[u8], out: &mut Vec<Violation>) -> u64 {
 	evals
 }
 
+/// Fixed constants of the path / segment types and the scheme-likeness predicate.
+pub fn c12_constants(out: &mut Vec<Violation>) -> u64 {
+	let mk = |what: &str| Violation::new("C12", "constants", what, json!({"fam": fam_name(), "path": ""}));
+	let mut n = 0;
+	let mut chk = |name: &str, got: &[u8], want: &[u8], out: &mut Vec<Violation>| {
+		n += 1;
+		if got != want {
+			out.push(mk(name).obs(format!("{:?}", lossy(got))).exp(format!("{:?}", lossy(want))));
+		}
+	};
+	chk("Path::EMPTY", Path::EMPTY.as_bytes(), b"", out);
+	chk("Path::EMPTY_ABSOLUTE", Path::EMPTY_ABSOLUTE.as_bytes(), b"/", out);
+	chk("Segment::EMPTY", Segment::EMPTY.as_bytes(), b"", out);
+	chk("Segment::CURRENT", Segment::CURRENT.as_bytes(), b".", out);
+	chk("Segment::PARENT", Segment::PARENT.as_bytes(), b"..", out);
+	chk("PathBuf::default", PathBuf::default().as_bytes(), b"", out);
+	chk("RiRefBuf::default", RiRefBuf::default().as_bytes(), b"", out);
+	chk("Query::EMPTY", Query::EMPTY.as_bytes(), b"", out);
+	chk("Fragment::EMPTY", Fragment::EMPTY.as_bytes(), b"", out);
+	chk("Authority::EMPTY", Authority::EMPTY.as_bytes(), b"", out);
+	chk("Host::EMPTY", Host::EMPTY.as_bytes(), b"", out);
+	chk("UserInfo::EMPTY", UserInfo::EMPTY.as_bytes(), b"", out);
+	chk("Port::EMPTY", Port::EMPTY.as_bytes(), b"", out);
+	chk("RiRef::EMPTY", RiRef::EMPTY.as_bytes(), b"", out);
+	for s in ["s", "ab+1.-", "HTTP"] {
+		let got = guard(|| RiBuf::from_scheme(SchemeBuf::new(s.as_bytes().to_vec()).ok().unwrap()).as_bytes().to_vec());
+		let mut want = s.as_bytes().to_vec();
+		want.push(b':');
+		match got {
+			Guard::Ok(g) => chk("RiBuf::from_scheme", &g, &want, out),
+			Guard::Panic(pm) => out.push(mk("RiBuf::from_scheme").obs(format!("panic: {pm}")).exp("no panic")),
+		}
+	}
+	n
+}
+
+/// `looks_like_scheme` on paths and segments: of the form prefix:suffix with a valid scheme prefix.
+fn model_looks_like_scheme(t: &[u8]) -> bool {
+	match t.iter().position(|c| *c == b':') {
+		Some(i) if i > 0 => t[0].is_ascii_alphabetic() && t[..i].iter().all(|c| c.is_ascii_alphanumeric() || matches!(c, b'+' | b'-' | b'.')),
+		_ => false,
+	}
+}
+
 pub fn c12_replay(input: &Value) -> Vec<Violation> {
 	let mut out = Vec::new();
 	if let Some(p) = json_bytes(&input["path"]) {
 		c12_case(&p, &mut out);
+		if p.is_empty() {
+			c12_constants(&mut out);
+		}
 	}
 	out
 }
